@@ -5661,8 +5661,13 @@ int32_t matrixSslEncodeClientHello(ssl_t *ssl, sslBuf_t *out,
         if (ssl->haveCookie)
         {
             *c = (unsigned char) ssl->cookieLen; c++;
-            Memcpy(c, ssl->cookie, ssl->cookieLen);
-            c += ssl->cookieLen;
+            if (ssl->cookieLen > 0)
+            {
+                /* (a HelloVerifyRequest may carry an empty cookie: nothing
+                   was stored then and ssl->cookie is NULL) */
+                Memcpy(c, ssl->cookie, ssl->cookieLen);
+                c += ssl->cookieLen;
+            }
         }
         else
         {
